@@ -242,7 +242,8 @@ def _plain(tagged):
 
 
 def _has_line_break(rows):
-    return any("\n" in cell or "\r" in cell or "\x00" in cell for row in rows for cell in row)
+    """Cells the csv text of a CID cannot hold: a NUL.  (Line breaks inside cells are quoted and come back as they are.)"""
+    return any("\x00" in cell for row in rows for cell in row)
 
 
 def csv_text(rows):
@@ -1038,6 +1039,8 @@ _SEED_FIELDS = [
     ("born", "1969-11-03", "X", "", "10", "DateTime", "YYYY-MM-DD", "1969-13-03"),
     ("branch", "B123-abc", "", "", "8", "Pattern", "B???-*", "X123"),
     ("email", "some@example.com", "", "...40", "20", "RegEx", "^[a-z0-9._]+@[a-z0-9.]+$", "no at sign"),
+    # an example with a Windows line break in it: four characters, however the CID reaches cutplace
+    ("remark", "a\r\nb", "X", "4", "4", "Text", "", "a\r\nbc"),
 ]
 
 
@@ -1082,6 +1085,8 @@ def seed_cases():
                 add("comment", ["", "Name", "Example", "Empty", "Length", "Type", "Rule"])
             expect_fields, bad_examples = [], []
             for name, example, mark, length, width, type_name, rule, rejected in _SEED_FIELDS:
+                if fixed and name == "remark":
+                    continue  # the fixed seed CID allows the characters from 32 on only
                 if fixed and type_name == "Text":
                     rejected = "x" * 11
                 if kind == "delimited-de" and type_name == "Decimal":
